@@ -487,6 +487,13 @@ impl<'c> Exec<'c> {
                 Event::Learned { predicates, .. } => {
                     self.stats.learned += 1;
                     self.trace.add(predicates.len() as u64 + 0x1000);
+                    // the order of the predicates is part of the observable behaviour (it is the
+                    // order in which a proof would list them and decides the watched predicates)
+                    for p in predicates.iter() {
+                        self.trace.add_i(p.get_domain().id as i64);
+                        self.trace.add_i(p.get_right_hand_side() as i64);
+                        self.trace.add(if p.is_lower_bound_predicate() { 1 } else if p.is_upper_bound_predicate() { 2 } else if p.is_equality_predicate() { 3 } else { 4 });
+                    }
                     if self.case.checks.learned {
                         if let Some(s) = context.iter().find(|s| predicates.iter().all(|p| self.pred_holds(p, s))) {
                             return viol(
